@@ -1502,6 +1502,167 @@ def search_toy_deterministic(ctx, lib):
                 ctx.fail("toy-deterministic-differs", info, "RFC 6979 signature %r does not verify" % (want,))
 
 
+# ---- call sequences on long-lived key objects (state independence) ----------------
+
+def seq_make_ops(r, lib, oc, d, default_hn, nops):
+    """a list of JSON-able operations; signatures to be verified are made here by FRESH key objects"""
+    n, c = oc.n, oc.curve
+
+    def fresh_sk():
+        return lib.keys.SigningKey.from_secret_exponent(d, c, hashfunc=getattr(hashlib, default_hn))
+
+    def pick_hash(force=None):
+        if force == "default":
+            return None
+        others = [h for h in HASHES if h != default_hn]
+        return r.choice(others) if force == "explicit" else r.choice([None, None] + others)
+
+    def mk(opname, force=None):
+        kind = r.choice(["string", "strings", "der"])
+        canon = r.random() < 0.3
+        hn = pick_hash(force)
+        msg = rbytes(r, r.choice([0, 3, 20, 64]))
+        op = {"op": opname, "hash": hn, "enc": kind, "canon": canon, "msg": msg.hex()}
+        eff = hn or default_hn
+        if opname == "sign":
+            op["k"] = r.randrange(1, n)
+            op["allow"] = True
+        elif opname == "sign_deterministic":
+            op["extra"] = r.choice([b"", b"", rbytes(r, 5)]).hex()
+        elif opname in ("sign_digest", "sign_digest_deterministic"):
+            op["digest"] = hashlib.new(eff, msg).digest().hex() if r.random() < 0.7 else rbytes(r, r.choice([c.baselen, c.baselen + 3, 20])).hex()
+            op["allow"] = r.random() < 0.6
+            op["k"] = r.randrange(1, n)
+        elif opname in ("verify", "verify_digest"):
+            # the signature: valid for the effective hash (mostly), or made with another hash / damaged
+            flavour = "valid" if force else r.choice(["valid", "valid", "valid", "other-hash", "damaged"])
+            sig_hn = eff if flavour != "other-hash" else r.choice([h for h in HASHES if h != eff])
+            enc, _ = enc_pair(lib, kind, canon)
+            sig = fresh_sk().sign_deterministic(msg, hashfunc=getattr(hashlib, sig_hn), sigencode=enc)
+            flat = sig_to_flat(kind, sig)
+            if flavour == "damaged":
+                flat = flip(flat, r.randrange(8 * len(flat)))
+            op["sig"] = flat.hex()
+            op["siglen0"] = len(sig[0]) if kind == "strings" else None
+            op["flavour"] = flavour
+            op["allow"] = True if opname == "verify" else r.random() < 0.8
+            if opname == "verify_digest":
+                op["digest"] = hashlib.new(eff, msg).digest().hex()
+        return op
+    names = ["sign", "sign_deterministic", "sign_digest", "sign_digest_deterministic", "verify", "verify", "verify_digest"]
+    ops = [mk(r.choice(names)) for _ in range(nops)]
+    # every hashing entry point once with an explicit non-default hash and then with the default
+    for nm in ("verify", "sign", "sign_deterministic", "sign_digest_deterministic"):
+        ops.append(mk(nm, "explicit"))
+        ops.append(mk(nm, "default"))
+    return ops
+
+
+def seq_run_op(lib, sk, vk, c, op):
+    hf = getattr(hashlib, op["hash"]) if op["hash"] else None
+    enc, dec = enc_pair(lib, op["enc"], op["canon"])
+    msg = bytes.fromhex(op["msg"])
+    nm = op["op"]
+    if nm == "sign":
+        res = run_s(lib, sk.sign, msg, None, hf, enc, op["k"], op["allow"])
+    elif nm == "sign_deterministic":
+        with deadline():
+            res = run_s(lib, sk.sign_deterministic, msg, hf, enc, bytes.fromhex(op["extra"]))
+    elif nm == "sign_digest":
+        res = run_s(lib, sk.sign_digest, bytes.fromhex(op["digest"]), None, enc, op["k"], op["allow"])
+    elif nm == "sign_digest_deterministic":
+        with deadline():
+            res = run_s(lib, sk.sign_digest_deterministic, bytes.fromhex(op["digest"]), hf, enc, b"", op["allow"])
+    else:
+        flat = bytes.fromhex(op["sig"])
+        sig = (flat[:op["siglen0"]], flat[op["siglen0"]:]) if op["enc"] == "strings" else flat
+        if nm == "verify":
+            res = run_s(lib, vk.verify, sig, msg, hf, dec, op["allow"])
+        else:
+            res = run_s(lib, vk.verify_digest, sig, bytes.fromhex(op["digest"]), dec, op["allow"])
+    if res[0] == "ok" and isinstance(res[1], tuple):
+        res = ("ok", tuple(bytes(x) for x in res[1]))
+    return res
+
+
+def seq_expected(lib, oc, d, default_hn, op, res):
+    """what an independent implementation says about the result (None: no opinion)"""
+    n, c = oc.n, oc.curve
+    eff = op["hash"] or default_hn
+    msg = bytes.fromhex(op["msg"])
+    _, dec = enc_pair(lib, op["enc"], op["canon"])
+    Q = oc.mulG(d)
+    if op["op"] in ("verify", "verify_digest"):
+        digest = hashlib.new(eff, msg).digest() if op["op"] == "verify" else bytes.fromhex(op["digest"])
+        if not op["allow"] and len(digest) > c.baselen:
+            return ("err", "SBadDigest")
+        flat = bytes.fromhex(op["sig"])
+        sig = (flat[:op["siglen0"]], flat[op["siglen0"]:]) if op["enc"] == "strings" else flat
+        try:
+            rr, ss = dec(sig, n)
+        except Exception:   # noqa
+            return ("err", "SBadSig")
+        e = oc.e_of(digest) if op["allow"] else int.from_bytes(digest, "big")
+        return ("ok", True) if oc.verify(Q, e, rr, ss) else ("err", "SBadSig")
+    # signing: when it succeeded, the signature must verify independently over the effective hash
+    if res[0] != "ok":
+        return None
+    if op["op"] in ("sign", "sign_deterministic"):
+        digest, allow = hashlib.new(eff, msg).digest(), True
+    else:
+        digest, allow = bytes.fromhex(op["digest"]), op["allow"]
+    rr, ss = dec(res[1], n)
+    e = oc.e_of(digest) if allow else int.from_bytes(digest, "big")
+    return res if oc.verify(Q, e, rr, ss) else ("sig-does-not-verify",)
+
+
+def seq_play(lib, oc, d, default_hn, ops, verbose=False):
+    """run ops on one long-lived (sk, vk) pair; each result is compared with the same call on
+    fresh key objects and with the independent expectation.  Returns (index, why) or None."""
+    c = oc.curve
+    dh = getattr(hashlib, default_hn)
+    sk = lib.keys.SigningKey.from_secret_exponent(d, c, hashfunc=dh)
+    vk = sk.get_verifying_key()
+    vk2 = lib.keys.VerifyingKey.from_string(vk.to_string(), c, hashfunc=dh)     # a second long-lived object
+    for i, op in enumerate(ops):
+        fsk = lib.keys.SigningKey.from_secret_exponent(d, c, hashfunc=dh)
+        fresh = seq_run_op(lib, fsk, fsk.get_verifying_key(), c, op)
+        longl = seq_run_op(lib, sk, vk, c, op)
+        long2 = seq_run_op(lib, sk, vk2, c, op) if op["op"].startswith("verify") else longl
+        want = seq_expected(lib, oc, d, default_hn, op, longl)
+        if verbose:
+            print("   step %d %s hash=%s enc=%s%s: long-lived -> %r | fresh -> %r | independent -> %r" % (
+                i, op["op"], op["hash"], op["enc"], "+canon" if op["canon"] else "", longl[:2], fresh[:2], want and want[:2]))
+        if longl[:2] != fresh[:2] or long2[:2] != fresh[:2]:
+            return i, "long-lived key object answers %r, a fresh key object %r" % (longl, fresh)
+        if want is not None and longl[:2] != want[:2]:
+            return i, "key object answers %r, independent implementation %r" % (longl, want)
+        for obj, nm in ((sk, "SigningKey"), (vk, "VerifyingKey"), (vk2, "VerifyingKey")):
+            if obj.default_hashfunc is not dh:
+                return i, "%s.default_hashfunc changed to %r" % (nm, obj.default_hashfunc)
+        if sk.privkey.secret_multiplier != d or vk.pubkey.point.x() != oc.mulG(d)[0] or sk.curve is not c or vk.curve is not c:
+            return i, "key material of the object changed"
+    return None
+
+
+def search_sequences(ctx, lib, ocs):
+    r = ctx.rng
+    for oc in ocs:
+        for _ in range(ctx.budget(1, 6) * (3 if ctx.brokens else 1)):
+            d = r.randrange(1, oc.n)
+            default_hn = r.choice(["sha1", "sha1", "sha256", "sha512"])
+            ops = seq_make_ops(r, lib, oc, d, default_hn, ctx.budget(4, 16))
+            ctx.case(("sequence", oc.name, d, default_hn, repr(ops)))
+            ctx.evaluations += len(ops)
+            for op in ops:
+                ctx.dist["sequence-op:%s/%s" % (op["op"], "explicit" if op["hash"] else "default")] += 1
+            bad = seq_play(lib, oc, d, default_hn, ops)
+            if bad is not None:
+                i, why = bad
+                ctx.fail("stateful-key-object", {"curve": oc.name, "d": d, "default_hash": default_hn, "ops": ops[:i + 1]},
+                         "step %d (%s, hashfunc=%s): %s" % (i, ops[i]["op"], ops[i]["hash"], why))
+
+
 def search_openssl(ctx, lib, ocs):
     exe = openssl_bin()
     if exe is None or ctx.quick():
@@ -1585,6 +1746,7 @@ def search(ctx):
     search_digest(ctx, lib, ocs)
     search_malformed(ctx, lib, ocs)
     search_matrix(ctx, lib, ocs)
+    search_sequences(ctx, lib, ocs)
     search_openssl(ctx, lib, ocs)
     ctx.extra["rule"] = (
         "correspondence: integer helpers, codecs (valid, boundary, float-threshold, malformed and crafted DER), generate_k "
@@ -1596,7 +1758,10 @@ def search(ctx):
         "17 curves x 3 encodings, digest truncation = leftmost bits, "
         "truncated/extended/junk/crafted encodings, the matrix 17 curves x 5 hashes x 3 encodings x canonize x {random, "
         "deterministic} with independent SEC 1 verification, other key, single-bit flips of message and signature "
-        "(sampled in quick; exhaustive for one (hash, encoding) per curve in thorough), OpenSSL both directions (thorough). "
+        "(sampled in quick; exhaustive for one (hash, encoding) per curve in thorough), call sequences on long-lived SigningKey / "
+        "VerifyingKey objects (sign, sign_deterministic, sign_digest(_deterministic), verify, verify_digest with explicit / default "
+        "hashfunc, all codecs, allow_truncate) each compared with a fresh key object and the independent verifier, "
+        "OpenSSL both directions (thorough). "
         "non-trivial = everything except empty inputs; distinct by full input tuple")
 
 
@@ -1621,6 +1786,10 @@ def replay_one(lib, by, f):
         got = run_s(lib, vk.verify_digest, (d["r"], d["s"]), _hx(d["digest"]), lambda s, o: s, True)
         print("  verify_digest((r, s)) ->", got, " expected BadSignatureError")
         return got[:2] != ("err", "SBadSig")
+    if kind == "stateful-key-object":
+        bad = seq_play(lib, OC(by[d["curve"]]), d["d"], d["default_hash"], d["ops"], verbose=True)
+        print("  ->", "all steps agree" if bad is None else "step %d: %s" % bad)
+        return bad is not None
     if kind == "infinity-signature-error-type":
         c = by[d["curve"]]
         vk = lib.keys.SigningKey.from_secret_exponent(d["d"], c).get_verifying_key()
